@@ -547,7 +547,7 @@ func (s *Server) handlePostTx(w http.ResponseWriter, r *http.Request) {
 	}
 
 	// Wrap request body in a chunked reader.
-	ltxPath, err := db.WriteLTXFileAt(r.Context(), io.MultiReader(bytes.NewReader(hdrBuf), r.Body))
+	ltxPath, err := db.WriteForwardedLTXFileAt(r.Context(), io.MultiReader(bytes.NewReader(hdrBuf), r.Body))
 	if err != nil {
 		Error(w, r, fmt.Errorf("write ltx file: %s", err), http.StatusInternalServerError)
 		return
